@@ -170,6 +170,7 @@ func (e *EventEmitter) handleSubscriber(ctx context.Context, sub event.Subscript
 			}
 
 			condProcess.L.Lock()
+			verifhook.At("emitter.relocked", sub)
 		}
 		condProcess.L.Unlock()
 
